@@ -83,7 +83,13 @@ def generate(cls, rng):
     nh = 0
     for _ in range(rng.randrange(4, DP.pick(40, 110))):
         r = rng.random()
-        if r < 0.20:
+        if r < 0.03:
+            # a rule OBJECT that is already a member is added once more, to
+            # the same role or the other one (e.g. a rule that is included
+            # and excluded at the same time)
+            ops.append(["add_again", rng.randrange(8),
+                        rng.choice(["rrule", "exrule"])])
+        elif r < 0.20:
             role = rng.choice(["rrule", "rdate", "rdate", "exrule", "exdate",
                                "exdate"])
             ops.append(["add", role, gen_member(rng, role, base)])
@@ -181,6 +187,7 @@ def execute(cls, scenario, ctx):
     mirrors = [Mirror(ctx, A, "cached"), Mirror(ctx, B, "uncached")]
     model = dict(rrule=[], rdate=[], exrule=[], exdate=[])
     cost = [0]
+    built = []          # (model list, [object for A, object for B])
 
     def add(role, payload):
         if role in ("rrule", "exrule"):
@@ -210,6 +217,18 @@ def execute(cls, scenario, ctx):
             d = RL.dt(payload)
             model[role].append(d)
             objs = [d, d]
+        if role in ("rrule", "exrule"):
+            built.append((ml, objs))
+        for m, o in zip(mirrors, objs):
+            getattr(m.rset, role)(o)
+        return True
+
+    def add_again(k, role):
+        if not built:
+            return False
+        ml, objs = built[k % len(built)]
+        model[role].append(ml)
+        ctx.probe("member_object_added_twice")
         for m, o in zip(mirrors, objs):
             getattr(m.rset, role)(o)
         return True
@@ -251,19 +270,22 @@ def execute(cls, scenario, ctx):
     judged_after = False
     for op in scenario["ops"]:
         budget = RL.budget_for(2 * cost[0] + 2000 * len(L))
-        if op[0] == "add":
+        if op[0] in ("add", "add_again"):
             live = any(rec[2] and not rec[3] for m in mirrors
                        for rec in m.client.its.values())
-            if not add(op[1], op[2]):
+            ok = add(op[1], op[2]) if op[0] == "add" else \
+                add_again(op[1], op[2])
+            if not ok:
                 continue
             with K.mute():
                 L = current_L()
             for m in mirrors:
                 m.renew(L, base)
-            ctx.event("add", op[1], len(L))
+            ctx.event(op[0], op[1] if op[0] == "add" else op[2], len(L))
             if live:
                 mutated_live = True
-            ctx.state("add", op[1], live, bool(mirrors[0].stale))
+            ctx.state("add", op[1] if op[0] == "add" else op[2], live,
+                      bool(mirrors[0].stale))
             continue
         for m in mirrors:
             K.set_budget(budget)
